@@ -321,6 +321,13 @@ def main():
                 ck.count("not_judged: outside the exact universe")
                 continue
             records.append({"id": "c01-%d" % n, "T": Tt, "v": vr, "use": use, "input": repr(x)[:60], "out": repr(v)[:60], "shape": shape(T)})
+    # a constant / an enumeration declared beside other constraints: one fixed witness (known finding: the others are dropped)
+    We = gen.con("enum", None, vals=[1, 50])
+    We["py"] = [1, 50]
+    WT = gen.rule("int", [We, gen.con("le", 10)])
+    n += 1
+    records.append({"id": "c01-%d" % n, "T": gen.strip(WT), "v": alpha(gen.build(WT)(50)), "use": "type", "input": "50", "out": "50",
+                    "shape": "witness:enum-beside-other-constraints"})
     pipeline_universe(ck)
     byid = {r["id"]: r for r in records}
     res = tlc.judge("Trace_Conform", "Trace_Conform.cfg", records, workers=16)
@@ -334,6 +341,9 @@ def main():
         ck.sample({"id": r["id"], "declaration": r["shape"], "use": r["use"], "input": r["input"], "result": r["out"]})
     for t in res.tagged("VIOL"):
         r = byid[t[1]]
+        if r["shape"].startswith("witness:"):
+            ck.violation("C01|Conforms|%s" % r["shape"][8:], "Conforms", r)
+            continue
         ck.violation("C01|nonconforming|%s|%s" % (r["shape"], r["use"]), "Conforms", r)
     ck.rule = ("declarations = random descriptors of depth 1-3 over builtin leaves, constrained types (bounds, multiple_of, lengths, enum), "
                "List / constrained List with unique_items / Set / Tuple fixed and variable / Dict, unions, Optional, xor, &, & ~, data classes with "
